@@ -28,7 +28,8 @@ func init() {
 			"config/crl answers success only after a forced crlBuilder.rebuild when auto_rebuild is switched off or the CRL is re-enabled; " +
 			"issuer/:ref/revoke writes the revocation state, time and record only for an issuer that is not yet revoked; " +
 			"in the member loop of buildAnyCRLsWithCerts the next member is reached only through the read of revokedCertsMap[member], so a member without crl-signing usage still contributes the revocations recorded against it; " +
-			"the builder's pending-work flags dirty (re-read config/crl) and invalidate (flush the CRL modification time) are cleared only by the function doing that work, and only across its success edge or with the flag set again on every failure edge.",
+			"the builder's pending-work flags dirty (re-read config/crl) and invalidate (flush the CRL modification time) are cleared only by the function doing that work, and only across its success edge or with the flag set again on every failure edge; " +
+			"getLocalRevokedCertEntries passes over a revocation record as an issuer's own certificate only behind issuerEntry.Revoked == true (only such issuers are listed by augmentWithRevokedIssuers), so the two sources of CRL entries together cover every serial with a revoked/ record.",
 		NotDecided: "CRL/OCSP signature validity; multi-issuer interleavings and other schedules; restart after a prefix of the storage writes (crash points); that normalizeSerial/serialFromBigInt compute matching strings (value level); expiry arithmetic.",
 		Run:        runC16,
 	})
